@@ -1338,7 +1338,7 @@ def build(tier='quick', seed=0):
             bare.append(nd)
     for i, d in enumerate(bare):
         d['name'] = f'B{i:04d}'
-    crates['cbare'] = {'features': [], 'std': True, 'bare': True,
+    crates['cbare'] = {'features': [], 'std': True, 'bare': True, 'edition': '2018',
                        'prelude': PRELUDE_STD + extra + numeric_prelude(), 'decls': bare}
     crates['cnostd'] = {'features': ['serde', 'arbitrary'], 'std': False,
                         'prelude': PRELUDE_NOSTD + numeric_prelude(), 'decls': nostd}
